@@ -717,13 +717,13 @@ func extractSessionCompositeKey(data any, keys []string) string {
 	if m, ok := data.(map[string]any); ok {
 		parts := make([]string, 0, len(keys))
 		for _, k := range keys {
-			if val, exists := m[k]; exists {
-				parts = append(parts, cast.ToString(val))
+			if val, exists := m[k]; exists && val != nil {
+				parts = append(parts, escapeKeyPart(cast.ToString(val)))
 			} else {
-				parts = append(parts, "")
+				parts = append(parts, nullKeyPart) // NULL and missing values form their own group
 			}
 		}
-		return strings.Join(parts, "|")
+		return strings.Join(parts, groupKeySeparator)
 	}
 
 	// Use reflection for structs and other types
@@ -734,22 +734,22 @@ func extractSessionCompositeKey(data any, keys []string) string {
 
 	parts := make([]string, 0, len(keys))
 	for _, k := range keys {
-		var part string
+		part := nullKeyPart
 		switch v.Kind() {
 		case reflect.Map:
 			if v.Type().Key().Kind() == reflect.String {
 				mv := v.MapIndex(reflect.ValueOf(k))
-				if mv.IsValid() {
-					part = cast.ToString(mv.Interface())
+				if mv.IsValid() && mv.Interface() != nil {
+					part = escapeKeyPart(cast.ToString(mv.Interface()))
 				}
 			}
 		case reflect.Struct:
 			f := v.FieldByName(k)
 			if f.IsValid() {
-				part = cast.ToString(f.Interface())
+				part = escapeKeyPart(cast.ToString(f.Interface()))
 			}
 		}
 		parts = append(parts, part)
 	}
-	return strings.Join(parts, "|")
+	return strings.Join(parts, groupKeySeparator)
 }
